@@ -361,6 +361,14 @@ class Check:
             json.dump(replay_obj, fh, indent=1, default=str, ensure_ascii=False)
         self.violations.append({"sig": sig, "what": what, "replay": path, "no_input": no_input})
 
+    def skip_large(self, what):
+        """the very large inputs are there to expose what small ones cannot; once a failing input is in hand they only cost time
+        (a broken search can return almost every pair of 50 000 sequences)"""
+        if [v for v in self.violations if not v["no_input"]]:
+            self.notes.append(f"{what} skipped: a failing input had already been found")
+            return True
+        return False
+
     def model_error(self, what):
         self.model_errors.append(what)
 
